@@ -1191,6 +1191,7 @@ impl<'a> Message<'a> {
             data: self.data,
             data_i: MessageHeader::LENGTH,
             seen_message_integrity: false,
+            sha256_may_follow: false,
         }
     }
 
@@ -1368,35 +1369,50 @@ pub struct MessageAttributesIter<'a> {
     data: &'a [u8],
     data_i: usize,
     seen_message_integrity: bool,
+    // the previous attribute was the first integrity attribute and a MESSAGE-INTEGRITY
+    sha256_may_follow: bool,
 }
 
 impl<'a> Iterator for MessageAttributesIter<'a> {
     type Item = RawAttribute<'a>;
 
     fn next(&mut self) -> Option<Self::Item> {
-        if self.data_i >= self.data.len() {
-            return None;
-        }
-
-        let Ok(attr) = RawAttribute::from_bytes(&self.data[self.data_i..]) else {
-            self.data_i = self.data.len();
-            return None;
-        };
-        let padded_len = attr.padded_len();
-        self.data_i += padded_len;
-        if self.seen_message_integrity {
-            if attr.get_type() == Fingerprint::TYPE {
-                return Some(attr);
+        loop {
+            if self.data_i >= self.data.len() {
+                return None;
             }
-            return None;
-        }
-        if attr.get_type() == MessageIntegrity::TYPE
-            || attr.get_type() == MessageIntegritySha256::TYPE
-        {
-            self.seen_message_integrity = true;
-        }
 
-        Some(attr)
+            let Ok(attr) = RawAttribute::from_bytes(&self.data[self.data_i..]) else {
+                self.data_i = self.data.len();
+                return None;
+            };
+            let padded_len = attr.padded_len();
+            self.data_i += padded_len;
+            if self.seen_message_integrity {
+                if attr.get_type() == Fingerprint::TYPE {
+                    return Some(attr);
+                }
+                // MESSAGE-INTEGRITY-SHA256 directly after MESSAGE-INTEGRITY (what
+                // `MessageBuilder` produces when both are added) is still exposed.
+                let sha256_follows =
+                    self.sha256_may_follow && attr.get_type() == MessageIntegritySha256::TYPE;
+                self.sha256_may_follow = false;
+                if sha256_follows {
+                    return Some(attr);
+                }
+                // anything else after an integrity attribute is not covered by it: skip it, but
+                // keep looking for the FINGERPRINT
+                continue;
+            }
+            if attr.get_type() == MessageIntegrity::TYPE {
+                self.seen_message_integrity = true;
+                self.sha256_may_follow = true;
+            } else if attr.get_type() == MessageIntegritySha256::TYPE {
+                self.seen_message_integrity = true;
+            }
+
+            return Some(attr);
+        }
     }
 }
 
